@@ -88,6 +88,23 @@ func (u c14Universe) spender(o, v int) *wire.MsgTx {
 func c14OutOf(t int) int { return (t + 1) / 2 }
 func c14VarOf(t int) int { return 2 - t%2 }
 
+// Request ids (spec/TxNotifier: CTx/CKind, SOut/SKind).  A conf request
+// c in 1..4*nouts watches tx (c-1)%(2*nouts)+1 by {txid, script} (kind 0) or
+// by script alone (kind 1); a spend request s in 1..3*nouts watches outpoint
+// (s-1)%nouts+1 by {outpoint, script} (kind 0), by {outpoint, taproot
+// script} (kind 1: the notifier keys it by the outpoint and the zero taproot
+// script) or by script alone (kind 2).
+func (u c14Universe) cTx(c int) int   { return (c-1)%(2*u.nouts) + 1 }
+func (u c14Universe) cKind(c int) int { return (c - 1) / (2 * u.nouts) }
+func (u c14Universe) sOut(s int) int  { return (s-1)%u.nouts + 1 }
+func (u c14Universe) sKind(s int) int { return (s - 1) / u.nouts }
+
+// taprootScript is what a kind-1 client passes as the script of outpoint o.
+func (u c14Universe) taprootScript(o int) []byte {
+	h := sha256.Sum256([]byte{0x7a, byte(o), byte(u.salt), byte(u.salt >> 8), byte(u.salt >> 16), byte(u.salt >> 24)})
+	return append([]byte{0x51, 0x20}, h[:]...)
+}
+
 type c14Block struct {
 	id    int
 	inc   []int
@@ -107,8 +124,6 @@ type c14Run struct {
 	n       *chainntnfs.TxNotifier
 	hints   *channeldb.HeightHintCache
 	maxRegs int
-	// scriptOnly: clients register by script alone (zero txid / zero outpoint)
-	scriptOnly bool
 	chain   []c14Block
 	blkID   map[chainhash.Hash]int
 	spID    map[chainhash.Hash][2]int // spender tx hash -> (o, v)
@@ -124,7 +139,6 @@ var c14Nonce uint32
 func c14NewRun(t *testing.T, hints *channeldb.HeightHintCache, salt uint32, nouts, maxRegs, safety int) *c14Run {
 	r := &c14Run{
 		u: c14Universe{salt: salt, nouts: nouts}, hints: hints, maxRegs: maxRegs,
-		scriptOnly: verifkit.EnvInt("VERIF_SCRIPTONLY", 0) == 1,
 		blkID: map[chainhash.Hash]int{}, spID: map[chainhash.Hash][2]int{},
 		regs:    map[int]*c14Reg{},
 		confReq: map[int]chainntnfs.ConfRequest{}, spReq: map[int]chainntnfs.SpendRequest{},
@@ -132,42 +146,55 @@ func c14NewRun(t *testing.T, hints *channeldb.HeightHintCache, salt uint32, nout
 	}
 	r.n = chainntnfs.NewTxNotifier(c14Start, uint32(safety), hints, hints)
 	for o := 1; o <= nouts; o++ {
-		sr, err := chainntnfs.NewSpendRequest(r.opArg(o), r.u.spendScript(o))
+		for v := 1; v <= 2; v++ {
+			tx := r.u.spender(o, v)
+			r.spID[tx.TxHash()] = [2]int{o, v}
+		}
+	}
+	for s := 1; s <= 3*nouts; s++ {
+		sr, err := chainntnfs.NewSpendRequest(r.opArg(s), r.scriptArg(s))
 		if err != nil {
 			t.Fatal(err)
 		}
-		r.spReq[o] = sr
-		for v := 1; v <= 2; v++ {
-			tx := r.u.spender(o, v)
-			h := tx.TxHash()
-			r.spID[h] = [2]int{o, v}
-			cr, err := chainntnfs.NewConfRequest(r.txidArg(o, v), r.u.confScript(o, v))
-			if err != nil {
-				t.Fatal(err)
-			}
-			r.confReq[2*(o-1)+v] = cr
+		r.spReq[s] = sr
+	}
+	for c := 1; c <= 4*nouts; c++ {
+		tx := r.u.cTx(c)
+		cr, err := chainntnfs.NewConfRequest(r.txidArg(c), r.u.confScript(c14OutOf(tx), c14VarOf(tx)))
+		if err != nil {
+			t.Fatal(err)
 		}
+		r.confReq[c] = cr
 	}
 	return r
 }
 
 func (r *c14Run) tip() int { return len(r.chain) }
 
-// txidArg / opArg: what the client passes as txid / outpoint (nil = script only).
-func (r *c14Run) txidArg(o, v int) *chainhash.Hash {
-	if r.scriptOnly {
+// txidArg / opArg / scriptArg: what the client of conf request c / spend
+// request s passes as txid / outpoint / script (nil = script only).
+func (r *c14Run) txidArg(c int) *chainhash.Hash {
+	if r.u.cKind(c) == 1 {
 		return nil
 	}
-	h := r.u.spender(o, v).TxHash()
+	tx := r.u.cTx(c)
+	h := r.u.spender(c14OutOf(tx), c14VarOf(tx)).TxHash()
 	return &h
 }
 
-func (r *c14Run) opArg(o int) *wire.OutPoint {
-	if r.scriptOnly {
+func (r *c14Run) opArg(s int) *wire.OutPoint {
+	if r.u.sKind(s) == 2 {
 		return nil
 	}
-	op := r.u.outpoint(o)
+	op := r.u.outpoint(r.u.sOut(s))
 	return &op
+}
+
+func (r *c14Run) scriptArg(s int) []byte {
+	if r.u.sKind(s) == 1 {
+		return r.u.taprootScript(r.u.sOut(s))
+	}
+	return r.u.spendScript(r.u.sOut(s))
 }
 
 // guarded runs one call of the real code; a panic or a call that does not
@@ -239,9 +266,9 @@ func (r *c14Run) step(ev c14Event) (verifkit.Rec, bool) {
 		r.chain = r.chain[:len(r.chain)-1]
 
 	case "RegConf":
-		o, v := c14OutOf(ev.T), c14VarOf(ev.T)
+		o, v := c14OutOf(r.u.cTx(ev.T)), c14VarOf(r.u.cTx(ev.T))
 		call = func() error {
-			reg, err := r.n.RegisterConf(r.txidArg(o, v), r.u.confScript(o, v), uint32(ev.N), uint32(c14Start+ev.Hint))
+			reg, err := r.n.RegisterConf(r.txidArg(ev.T), r.u.confScript(o, v), uint32(ev.N), uint32(c14Start+ev.Hint))
 			if err != nil {
 				return err
 			}
@@ -255,7 +282,7 @@ func (r *c14Run) step(ev c14Event) (verifkit.Rec, bool) {
 
 	case "RegSpend":
 		call = func() error {
-			reg, err := r.n.RegisterSpend(r.opArg(ev.T), r.u.spendScript(ev.T), uint32(c14Start+ev.Hint))
+			reg, err := r.n.RegisterSpend(r.opArg(ev.T), r.scriptArg(ev.T), uint32(c14Start+ev.Hint))
 			if err != nil {
 				return err
 			}
@@ -291,7 +318,7 @@ func (r *c14Run) step(ev c14Event) (verifkit.Rec, bool) {
 				return fmt.Errorf("no historical dispatch outstanding")
 			}
 			var details *chainntnfs.TxConfirmation
-			o, v := c14OutOf(ev.T), c14VarOf(ev.T)
+			o, v := c14OutOf(r.u.cTx(ev.T)), c14VarOf(r.u.cTx(ev.T))
 			for k, b := range r.chain {
 				h := uint32(c14Start + k + 1)
 				if b.inc[o-1] != v || h < d.StartHeight || h > d.EndHeight {
@@ -318,15 +345,16 @@ func (r *c14Run) step(ev c14Event) (verifkit.Rec, bool) {
 				return fmt.Errorf("no historical dispatch outstanding")
 			}
 			var details *chainntnfs.SpendDetail
+			so := r.u.sOut(ev.T)
 			for k, b := range r.chain {
 				h := uint32(c14Start + k + 1)
-				v := b.inc[ev.T-1]
+				v := b.inc[so-1]
 				if v == 0 || h < d.StartHeight || h > d.EndHeight {
 					continue
 				}
-				tx := r.u.spender(ev.T, v)
+				tx := r.u.spender(so, v)
 				th := tx.TxHash()
-				op := r.u.outpoint(ev.T)
+				op := r.u.outpoint(so)
 				details = &chainntnfs.SpendDetail{
 					SpentOutPoint: &op, SpenderTxHash: &th, SpendingTx: tx,
 					SpenderInputIndex: 0, SpendingHeight: int32(h),
@@ -345,7 +373,7 @@ func (r *c14Run) step(ev c14Event) (verifkit.Rec, bool) {
 			if d == nil {
 				return fmt.Errorf("no historical dispatch outstanding")
 			}
-			o, v := c14OutOf(ev.T), c14VarOf(ev.T)
+			o, v := c14OutOf(r.u.cTx(ev.T)), c14VarOf(r.u.cTx(ev.T))
 			c14Nonce++
 			phantom := chainhash.Hash(sha256.Sum256([]byte{0xfa, byte(c14Nonce), byte(c14Nonce >> 8), byte(c14Nonce >> 16), byte(c14Nonce >> 24)}))
 			return r.n.UpdateConfDetails(r.confReq[ev.T], &chainntnfs.TxConfirmation{
@@ -361,9 +389,9 @@ func (r *c14Run) step(ev c14Event) (verifkit.Rec, bool) {
 			if d == nil {
 				return fmt.Errorf("no historical dispatch outstanding")
 			}
-			tx := r.u.spender(ev.T, ev.N)
+			tx := r.u.spender(r.u.sOut(ev.T), ev.N)
 			th := tx.TxHash()
-			op := r.u.outpoint(ev.T)
+			op := r.u.outpoint(r.u.sOut(ev.T))
 			return r.n.UpdateSpendDetails(r.spReq[ev.T], &chainntnfs.SpendDetail{
 				SpentOutPoint: &op, SpenderTxHash: &th, SpendingTx: tx,
 				SpenderInputIndex: 0, SpendingHeight: int32(c14Start + r.tip() + 1),
@@ -398,7 +426,7 @@ func (r *c14Run) step(ev c14Event) (verifkit.Rec, bool) {
 			evs[i] = []int{-1, -1, 0, 0, -1, -1, 0, 0}
 		}
 		rec["ev"] = evs
-		rec["chint"], rec["shint"] = make([]int, 2*r.u.nouts), make([]int, r.u.nouts)
+		rec["chint"], rec["shint"] = make([]int, 4*r.u.nouts), make([]int, 3*r.u.nouts)
 	}
 	return rec, !(pan || hung)
 }
@@ -478,8 +506,9 @@ func (r *c14Run) drain() [][]int {
 						} else {
 							e[4] = int(d.SpendingHeight) - c14Start
 							e[5] = -2
-							if ov, known := r.spID[*d.SpenderTxHash]; known && ov[0] == reg.t &&
-								d.SpentOutPoint != nil && *d.SpentOutPoint == r.u.outpoint(reg.t) {
+							so := r.u.sOut(reg.t)
+							if ov, known := r.spID[*d.SpenderTxHash]; known && ov[0] == so &&
+								d.SpentOutPoint != nil && *d.SpentOutPoint == r.u.outpoint(so) {
 
 								e[5] = ov[1]
 							}
@@ -516,11 +545,12 @@ func (r *c14Run) drain() [][]int {
 	return out
 }
 
-// queryHints reads both caches from the real database (-1 = no entry).
+// queryHints reads both caches from the real database through every request
+// id (-1 = no entry).
 func (r *c14Run) queryHints() ([]int, []int) {
-	ch := make([]int, 2*r.u.nouts)
-	sh := make([]int, r.u.nouts)
-	for t := 1; t <= 2*r.u.nouts; t++ {
+	ch := make([]int, 4*r.u.nouts)
+	sh := make([]int, 3*r.u.nouts)
+	for t := 1; t <= 4*r.u.nouts; t++ {
 		h, err := r.hints.QueryConfirmHint(r.confReq[t])
 		switch {
 		case err == nil:
@@ -531,7 +561,7 @@ func (r *c14Run) queryHints() ([]int, []int) {
 			ch[t-1] = -9
 		}
 	}
-	for o := 1; o <= r.u.nouts; o++ {
+	for o := 1; o <= 3*r.u.nouts; o++ {
 		h, err := r.hints.QuerySpendHint(r.spReq[o])
 		switch {
 		case err == nil:
@@ -636,11 +666,12 @@ func TestVerifC14Free(t *testing.T) {
 		pc, ps := map[int]*c14Pend{}, map[int]*c14Pend{}
 		live := map[int]bool{}
 		at := func(isConf bool, x int) int {
+			// x is a request id (any kind)
 			for k, b := range run.chain {
-				if isConf && b.inc[c14OutOf(x)-1] == c14VarOf(x) {
+				if tx := run.u.cTx(x); isConf && b.inc[c14OutOf(tx)-1] == c14VarOf(tx) {
 					return k + 1
 				}
-				if !isConf && b.inc[x-1] != 0 {
+				if !isConf && b.inc[run.u.sOut(x)-1] != 0 {
 					return k + 1
 				}
 			}
@@ -660,6 +691,9 @@ func TestVerifC14Free(t *testing.T) {
 		// early, so that different requests often mature at the same height
 		// while partial reorgs take out only the later block
 		focus := ri%3 == 0
+		// every other of the remaining runs registers through every kind of
+		// request (VERIF_KINDS=1): few objects, many requests per object
+		kinds := verifkit.EnvInt("VERIF_KINDS", 0) == 1 && !focus && ri%2 == 1
 		for s := 0; s < steps; s++ {
 			var ev c14Event
 			overdue := false
@@ -727,6 +761,14 @@ func TestVerifC14Free(t *testing.T) {
 				} else {
 					x = 1 + rng.Intn(nouts)
 				}
+				if kinds {
+					// one outpoint and its first spender, through any kind
+					if isConf {
+						x = 1 + 2*nouts*rng.Intn(2)
+					} else {
+						x = 1 + nouts*rng.Intn(3)
+					}
+				}
 				if focus {
 					x = 1 + 2*rng.Intn(nouts)
 				}
@@ -773,7 +815,7 @@ func TestVerifC14Free(t *testing.T) {
 				live[best] = false
 			}
 			// sometimes the backend is one block ahead when it answers
-			if ev.A == "HistConf" && at(true, ev.T) == 0 && at(false, c14OutOf(ev.T)) == 0 && rng.Intn(3) == 0 {
+			if ev.A == "HistConf" && at(true, ev.T) == 0 && at(false, c14OutOf(run.u.cTx(ev.T))) == 0 && rng.Intn(3) == 0 {
 				ev = c14Event{A: "HistConfAhead", T: ev.T, N: 1}
 			}
 			if ev.A == "HistSpend" && at(false, ev.T) == 0 && rng.Intn(3) == 0 {
